@@ -213,7 +213,7 @@ def run(ctx, report: Report) -> None:
     # what each of these combinators designates is decided by the relations table of R1, whatever the dispatch looks like
 
     # ---- R5 (decision tables by partial evaluation) ------------------------------------------------------
-    r5 = report.rule('C01-R5', 'every IR field is consulted, conjunctively (decision tables)', floor=52)
+    r5 = report.rule('C01-R5', 'every IR field is consulted, conjunctively (decision tables)', floor=140)
     from .sem import helper_tables, match_selectors_table
     match_selectors_table(ctx, r5)
     helper_tables(ctx, r5)
@@ -256,7 +256,7 @@ def run(ctx, report: Report) -> None:
                      'also splits on NBSP, U+2003, VT ...): ".a" and [class~=a] disagree')
 
     # ---- R9 (the whole pipeline by interpretation, bounded) --------------------------------------------------------------
-    r9 = report.rule('C01-R9', 'selectors of a pool designate what the Selectors specification says, on a reference tree (whole pipeline; bounded)', floor=90)
+    r9 = report.rule('C01-R9', 'selectors of a pool designate what the Selectors specification says, on a reference tree (whole pipeline; bounded)', floor=251)
     from .e2ematch import core_semantics_table
     core_semantics_table(ctx, r9)
 
